@@ -374,6 +374,7 @@ func inlineCall(F *ssa.Function, call *ssa.Call, g *ssa.Function) {
 				}
 			}
 		}
+		dropEmptyJumpBlocks(F)
 		if len(F.Blocks) == before {
 			break
 		}
@@ -1464,4 +1465,79 @@ func splitReturn(F *ssa.Function, K *ssa.BasicBlock) bool {
 	}
 	delete(domCache, F)
 	return true
+}
+
+// dropEmptyJumpBlocks: a block left by the splice that consists of a jump
+// alone, to a block without phis, is bypassed (as go/ssa's builder does).
+func dropEmptyJumpBlocks(F *ssa.Function) {
+	for changed := true; changed; {
+		changed = false
+		for _, X := range F.Blocks {
+			if X == F.Blocks[0] || X == F.Recover || len(X.Instrs) != 1 || len(X.Succs) != 1 || len(X.Preds) == 0 || !strings.Contains(X.Comment, "inl.") {
+				continue
+			}
+			if _, ok := X.Instrs[0].(*ssa.Jump); !ok {
+				continue
+			}
+			Y := X.Succs[0]
+			if Y == X {
+				continue
+			}
+			if _, hasPhi := Y.Instrs[0].(*ssa.Phi); hasPhi {
+				continue
+			}
+			clash := false
+			for _, P := range X.Preds {
+				for _, q := range Y.Preds {
+					if q == P {
+						clash = true
+					}
+				}
+				n := 0
+				for _, s := range P.Succs {
+					if s == X {
+						n++
+					}
+				}
+				if n != 1 {
+					clash = true
+				}
+			}
+			if clash {
+				continue
+			}
+			for _, P := range X.Preds {
+				for j, s := range P.Succs {
+					if s == X {
+						P.Succs[j] = Y
+					}
+				}
+			}
+			var np []*ssa.BasicBlock
+			for _, q := range Y.Preds {
+				if q == X {
+					np = append(np, X.Preds...)
+				} else {
+					np = append(np, q)
+				}
+			}
+			Y.Preds = np
+			if !strings.Contains(Y.Comment, "inl.") {
+				Y.Comment += "+inl.target"
+			}
+			out := F.Blocks[:0]
+			for _, b := range F.Blocks {
+				if b != X {
+					out = append(out, b)
+				}
+			}
+			F.Blocks = out
+			for i, b := range F.Blocks {
+				b.Index = i
+			}
+			changed = true
+			break
+		}
+	}
+	delete(domCache, F)
 }
